@@ -430,6 +430,15 @@ func (pr *pageRun) app(sc *node.SConn, rec *node.ReqRec) {
 		}
 	}
 	s := pr.scripts[token]
+	if s == nil && rq.Params.HasPagingState {
+		// a next-page request: its paging state tells whose it is; the values it carries
+		// must be those of that query's first request
+		if ref, ok := pr.byState[string(rq.Params.PagingState)]; ok {
+			k.Violate("C15", "C15/next-page-other-values", "the request for page %d of %s carries %s: not the statement and values of the query it continues", ref.page, ref.token, node.Describe(rq))
+			cl.SendError(sc, rec, cqlspec.ErrInvalid, "no such token", node.Hold)
+			return
+		}
+	}
 	if s == nil {
 		k.Violate("HARNESS", "page/unknown-token", "the node received %s which names no scripted query", node.Describe(rq))
 		cl.SendError(sc, rec, cqlspec.ErrInvalid, "no such token", node.Hold)
